@@ -82,6 +82,22 @@ def replay_ser(state):
         obs["j0_tagged"] = codec.py_to_tagged(j0)
     except ValueError as exc:
         obs["j0_tagged_err"] = str(exc)[:200]
+    # caller-supplied definitions: one element picked from inside the tree, one from outside
+    try:
+        from statham.schema.elements import String
+        from statham.schema.elements.meta import ObjectMeta as _OM
+        inner = [x for x in drive.walk_elements(el) if x is not el and not isinstance(x, _OM)]
+        defs = {"outside": String(minLength=3)}
+        if inner:
+            defs["inner"] = inner[len(inner) // 2]
+        jd = serialize_json(el, definitions=defs)
+        json.dumps(jd)
+        obs["jd"] = jd
+        obs["jd_tagged"] = codec.py_to_tagged(jd)
+    except ValueError:
+        pass
+    except Exception as exc:  # noqa
+        obs["jd_err"] = type(exc).__name__ + ": " + str(exc)[:160]
     try:
         j1, el1 = _reparse(copy.deepcopy(j0))
         obs["j1"] = j1
@@ -212,6 +228,13 @@ def run(pid, tier, replay_file=None):
             kinds = "<<" + ", ".join(codec.tla_str(k) for k in ob["kinds"]) + ">>"
             add_event(si, "C03", '[id |-> @ID@, p |-> "C03", j |-> %s, kinds |-> %s]'
                       % (tlajson_to_tla(ob["j0_tagged"]), kinds))
+            if "jd_err" in ob:
+                rep.violation(("C03", "serialize-with-definitions-raises", sig),
+                              f"serialize_json(..., definitions=...) fails for {sjson(st)}: {ob['jd_err']}",
+                              dict(state=st, observed=_slim(ob)))
+            elif "jd_tagged" in ob:
+                add_event(si, "C03defs", '[id |-> @ID@, p |-> "C03", j |-> %s, kinds |-> %s]'
+                          % (tlajson_to_tla(ob["jd_tagged"]), kinds))
         elif pid == "C06":
             if "j0_err" in ob:
                 continue
@@ -276,9 +299,10 @@ def run(pid, tier, replay_file=None):
             st, ob = states[si], observations[si]
             clause = rejected[eid]
             if pid == "C03":
-                msg = (f"serialize_json of the element parsed from {sjson(st)} gives "
-                       f"{json.dumps(ob['j0'])[:240]}: {clause}")
-                key = ("C03", clause, _kwsig_json(ob["j0"]))
+                jj = ob.get("jd") if tag == "C03defs" else ob["j0"]
+                msg = (f"serialize_json{' with caller-supplied definitions' if tag == 'C03defs' else ''} of the element parsed from {sjson(st)} gives "
+                       f"{json.dumps(jj)[:240]}: {clause}")
+                key = ("C03", clause, tag, _kwsig_json(jj))
             elif pid == "C06":
                 a, b = (ob.get("jm"), ob.get("jm1")) if tag == "C06dsl" else (ob["j0"], ob["j1"])
                 msg = (f"round trip is not the identity ({tag}): {json.dumps(a)[:200]} -> "
@@ -364,7 +388,7 @@ def _fix(rec):
 
 
 def _slim(ob):
-    return {k: (v if k in ("parse", "kinds", "j0", "j1", "jm", "jm1", "jm_err", "j0_err", "j1_err", "py_err", "elem_err") else "...")
+    return {k: (v if k in ("parse", "kinds", "j0", "j1", "jd", "jd_err", "jm", "jm1", "jm_err", "j0_err", "j1_err", "py_err", "elem_err") else "...")
             for k, v in ob.items()}
 
 
